@@ -170,7 +170,15 @@ func runSolver(ctx context.Context, sp solverSpec, file string, timeoutS, seed i
 	_ = cmd.Run()
 	el := time.Since(t0).Seconds()
 	s := out.String()
-	first := strings.TrimSpace(strings.SplitN(s, "\n", 2)[0])
+	first := ""
+	for _, l := range strings.Split(s, "\n") {
+		l = strings.TrimSpace(l)
+		if l == "" || strings.HasPrefix(l, "WARNING") {
+			continue
+		}
+		first = l
+		break
+	}
 	st := "unknown"
 	switch {
 	case first == "unsat":
